@@ -12,9 +12,9 @@ Proof. unfold nmin, Rmin. cbn. unfold Rltb. destruct (Rlt_dec b a), (Rle_dec a b
 Lemma clamp_in v lo hi : lo <= v <= hi -> Rmin (Rmax v lo) hi = v.
 Proof. intros [H1 H2]. rewrite Rmax_left by lra. rewrite Rmin_left by lra. reflexivity. Qed.
 
-Lemma dseg_at_a x1 y1 x2 y2 : distance_to_segment RNum x1 y1 x1 y1 x2 y2 = 0.
+Lemma dseg_nd_at_a x1 y1 x2 y2 : distance_to_segment_nd RNum x1 y1 x1 y1 x2 y2 = 0.
 Proof.
-  unfold distance_to_segment. rewrite !nmax_R, !nmin_R. cbn [add sub mul div sqrt RNum].
+  unfold distance_to_segment_nd. rewrite !nmax_R, !nmin_R. cbn [add sub mul div sqrt RNum].
   set (l := R_sqrt.sqrt ((x2 - x1) * (x2 - x1) + (y2 - y1) * (y2 - y1))).
   replace ((x1 - x1) * (x2 - x1) + (y1 - y1) * (y2 - y1)) with 0 by ring.
   unfold Rdiv. rewrite !Rmult_0_l, !Rplus_0_r.
@@ -23,9 +23,9 @@ Proof.
   replace ((x1 - x1) * (x1 - x1) + (y1 - y1) * (y1 - y1)) with 0 by ring. apply sqrt_0.
 Qed.
 
-Lemma dseg_at_b x1 y1 x2 y2 : (x1, y1) <> (x2, y2) -> distance_to_segment RNum x2 y2 x1 y1 x2 y2 = 0.
+Lemma dseg_nd_at_b x1 y1 x2 y2 : (x1, y1) <> (x2, y2) -> distance_to_segment_nd RNum x2 y2 x1 y1 x2 y2 = 0.
 Proof.
-  intros Hne. unfold distance_to_segment. rewrite !nmax_R, !nmin_R. cbn [add sub mul div sqrt RNum].
+  intros Hne. unfold distance_to_segment_nd. rewrite !nmax_R, !nmin_R. cbn [add sub mul div sqrt RNum].
   set (q := (x2 - x1) * (x2 - x1) + (y2 - y1) * (y2 - y1)). set (l := R_sqrt.sqrt q).
   assert (Hq : 0 < q).
   { unfold q. destruct (Req_dec x1 x2) as [Ex|Ex]; destruct (Req_dec y1 y2) as [Ey|Ey]; try nra. subst. contradiction Hne. reflexivity. }
@@ -38,7 +38,7 @@ Proof.
   rewrite (clamp_in y2) by (split; [apply Rmin_r | apply Rmax_r]).
   replace ((x2 - x2) * (x2 - x2) + (y2 - y2) * (y2 - y2)) with 0 by ring. apply sqrt_0.
 Qed.
-Print Assumptions dseg_at_b.
+
 
 (* ---- the coded function is the distance to the nearest point of the segment ---- *)
 From TL Require Import Proofs.GeomAlg.
@@ -68,12 +68,12 @@ Proof.
     try lra.
 Qed.
 
-Theorem distance_to_segment_nearest x0 y0 x1 y1 x2 y2 : (x1, y1) <> (x2, y2) ->
-  let d := distance_to_segment RNum x0 y0 x1 y1 x2 y2 in
+Theorem distance_to_segment_nd_nearest x0 y0 x1 y1 x2 y2 : (x1, y1) <> (x2, y2) ->
+  let d := distance_to_segment_nd RNum x0 y0 x1 y1 x2 y2 in
   (exists mu, 0 <= mu <= 1 /\ d = R_sqrt.sqrt ((x0 - (x1 + mu * (x2 - x1)))^2 + (y0 - (y1 + mu * (y2 - y1)))^2)) /\
   forall lam, 0 <= lam <= 1 -> d <= R_sqrt.sqrt ((x0 - (x1 + lam * (x2 - x1)))^2 + (y0 - (y1 + lam * (y2 - y1)))^2).
 Proof.
-  intros Hne d. unfold d, distance_to_segment. rewrite !nmax_R, !nmin_R. cbn [add sub mul div sqrt RNum].
+  intros Hne d. unfold d, distance_to_segment_nd. rewrite !nmax_R, !nmin_R. cbn [add sub mul div sqrt RNum].
   set (q := (x2 - x1) * (x2 - x1) + (y2 - y1) * (y2 - y1)). set (l := R_sqrt.sqrt q).
   assert (Hq : 0 < q).
   { unfold q. destruct (Req_dec x1 x2) as [Ex|Ex]; destruct (Req_dec y1 y2) as [Ey|Ey]; try nra. subst. contradiction Hne. reflexivity. }
@@ -102,4 +102,68 @@ Proof.
       replace (x2 + (1 - lam) * (x1 - x2)) with (x1 + lam * (x2 - x1)) in H by ring.
       replace (y2 + (1 - lam) * (y1 - y2)) with (y1 + lam * (y2 - y1)) in H by ring. exact H.
 Qed.
+
+
+(* ---- the function with its degenerate-chord branch ---- *)
+Lemma chord_zero_iff x1 y1 x2 y2 :
+  R_sqrt.sqrt ((x2 - x1) * (x2 - x1) + (y2 - y1) * (y2 - y1)) = 0 <-> (x1, y1) = (x2, y2).
+Proof.
+  split.
+  - intros H.
+    pose proof (Rle_0_sqr (x2 - x1)) as S1. pose proof (Rle_0_sqr (y2 - y1)) as S2. unfold Rsqr in S1, S2.
+    assert (Hq : (x2 - x1) * (x2 - x1) + (y2 - y1) * (y2 - y1) = 0) by (apply sqrt_eq_0; [lra | exact H]).
+    assert (A : (x2 - x1) * (x2 - x1) = 0) by lra. assert (B : (y2 - y1) * (y2 - y1) = 0) by lra.
+    apply Rmult_integral in A. apply Rmult_integral in B. f_equal; lra.
+  - intros E. injection E as E1 E2. subst x1 y1. replace ((x2 - x2) * (x2 - x2) + (y2 - y2) * (y2 - y2)) with 0 by ring. apply sqrt_0.
+Qed.
+
+Lemma dts_nondeg x0 y0 x1 y1 x2 y2 : (x1, y1) <> (x2, y2) ->
+  distance_to_segment RNum x0 y0 x1 y1 x2 y2 = distance_to_segment_nd RNum x0 y0 x1 y1 x2 y2.
+Proof.
+  intros Hne. unfold distance_to_segment. cbn [add sub mul div sqrt eqb zero RNum]. unfold Reqb.
+  destruct (Req_EM_T _ 0) as [E|E]; [|reflexivity]. apply chord_zero_iff in E. contradiction.
+Qed.
+
+Lemma dts_deg x0 y0 x1 y1 :
+  distance_to_segment RNum x0 y0 x1 y1 x1 y1 = R_sqrt.sqrt ((x0 - x1) * (x0 - x1) + (y0 - y1) * (y0 - y1)).
+Proof.
+  unfold distance_to_segment. cbn [add sub mul div sqrt eqb zero RNum]. unfold Reqb.
+  destruct (Req_EM_T _ 0) as [E|E]; [reflexivity|]. exfalso. apply E. apply chord_zero_iff. reflexivity.
+Qed.
+
+Lemma dseg_at_a x1 y1 x2 y2 : distance_to_segment RNum x1 y1 x1 y1 x2 y2 = 0.
+Proof.
+  destruct (Req_dec x1 x2) as [Ex|Ex]; [destruct (Req_dec y1 y2) as [Ey|Ey]|].
+  - subst. rewrite dts_deg. replace ((x2 - x2) * (x2 - x2) + (y2 - y2) * (y2 - y2)) with 0 by ring. apply sqrt_0.
+  - rewrite dts_nondeg by (intros [= _ E]; contradiction). apply dseg_nd_at_a.
+  - rewrite dts_nondeg by (intros [= E _]; contradiction). apply dseg_nd_at_a.
+Qed.
+
+Lemma dseg_at_b x1 y1 x2 y2 : distance_to_segment RNum x2 y2 x1 y1 x2 y2 = 0.
+Proof.
+  destruct (Req_dec x1 x2) as [Ex|Ex]; [destruct (Req_dec y1 y2) as [Ey|Ey]|].
+  - subst. rewrite dts_deg. replace ((x2 - x2) * (x2 - x2) + (y2 - y2) * (y2 - y2)) with 0 by ring. apply sqrt_0.
+  - rewrite dts_nondeg by (intros [= _ E]; contradiction). apply dseg_nd_at_b. intros [= _ E]; contradiction.
+  - rewrite dts_nondeg by (intros [= E _]; contradiction). apply dseg_nd_at_b. intros [= E _]; contradiction.
+Qed.
+
+(* for every chord, degenerate or not: the coded value is attained at a point of the closed segment and is minimal over it *)
+Theorem distance_to_segment_nearest x0 y0 x1 y1 x2 y2 :
+  let d := distance_to_segment RNum x0 y0 x1 y1 x2 y2 in
+  (exists mu, 0 <= mu <= 1 /\ d = R_sqrt.sqrt ((x0 - (x1 + mu * (x2 - x1)))^2 + (y0 - (y1 + mu * (y2 - y1)))^2)) /\
+  forall lam, 0 <= lam <= 1 -> d <= R_sqrt.sqrt ((x0 - (x1 + lam * (x2 - x1)))^2 + (y0 - (y1 + lam * (y2 - y1)))^2).
+Proof.
+  cbv zeta.
+  assert (Deg : x1 = x2 -> y1 = y2 ->
+    (exists mu, 0 <= mu <= 1 /\ distance_to_segment RNum x0 y0 x1 y1 x2 y2 = R_sqrt.sqrt ((x0 - (x1 + mu * (x2 - x1)))^2 + (y0 - (y1 + mu * (y2 - y1)))^2)) /\
+    forall lam, 0 <= lam <= 1 -> distance_to_segment RNum x0 y0 x1 y1 x2 y2 <= R_sqrt.sqrt ((x0 - (x1 + lam * (x2 - x1)))^2 + (y0 - (y1 + lam * (y2 - y1)))^2)).
+  { intros -> ->. rewrite dts_deg. split.
+    - exists 0. split; [lra|]. f_equal. ring.
+    - intros lam _. right. f_equal. ring. }
+  destruct (Req_dec x1 x2) as [Ex|Ex]; [destruct (Req_dec y1 y2) as [Ey|Ey]|].
+  - apply Deg; assumption.
+  - rewrite dts_nondeg by (intros [= _ E]; contradiction). apply distance_to_segment_nd_nearest. intros [= _ E]; contradiction.
+  - rewrite dts_nondeg by (intros [= E _]; contradiction). apply distance_to_segment_nd_nearest. intros [= E _]; contradiction.
+Qed.
+Print Assumptions dseg_at_b.
 Print Assumptions distance_to_segment_nearest.
